@@ -137,3 +137,5 @@ class EagerBatcherInit(Unit):
 
 
 UNITS = [EagerBatcherIter, EagerBatcherInit]
+
+SCENARIOS = [('', 'replay/scenarios/c19_virtual_clock.py')]
